@@ -10,7 +10,8 @@ META = {
                  'property text are tied to the unmodified fibre.c + messageq.c + list.c by a deterministic single-threaded harness that runs scripted interrupt calls in place at every atomic point '
                  '(include-path stdatomic.h shim, ASan)',
     'level_text': 'Proved (kernel-only, induction over steps - no bound on histories, on the number or placement of interrupts). '
-                  '(I) For EVERY state reachable by ANY interleaving of the main context\'s steps (fibre_scheduler_next / fibre_run / fibre_kill / the canonical handler\'s receive+release, split at each atomic '
+                  '(I) For EVERY state reachable by ANY interleaving of the main context\'s steps (fibre_scheduler_next / fibre_run / fibre_kill / the canonical handler\'s receive+release / the fibre_run(g) and '
+                  'fibre_kill(g) calls that a SCRIPTED FIBRE BODY makes while it is being dispatched, i.e. main-context calls nested inside the dispatch phase of a pass, each with its own handle_atomic_runq drain loop - all split at each atomic '
                   'operation with the plain code between them) with the steps of an interrupt handler, a handler nested inside it and a sender on another thread (fibre_run_atomic; claim+stamp+fibre_eventq_send): '
                   'accepted_never_lost - every fibre with an accepted, not since dispatched or killed request is the payload of a committed unreceived entry of the atomic queue, or on the run queue, or held by '
                   'the drain loop between receive and make_runnable; queues_not_corrupted - run queue and timer queue duplicate free and disjoint at every gap (C04\'s mq_inv for both message queues, every '
@@ -24,13 +25,16 @@ META = {
                   'get_next_wakeup compute kernel.now, the value returned), no_lost_event_wakeup_isr, sent_event_keeps_handler_owed (the NON-sticky form: while an event whose send returned true is unprocessed the '
                   'handler is owed a dispatch or running - also after refused wake-ups and kills), and the refinement model |= monitor: model_refines_monitor (the verdict of Spec/IsrSpec.lean on the model\'s own '
                   'observations is ok: no event out of order / from nowhere, no oversleeping pass, no starved request) and model_settles (after a quiescent run ending idle: owed = [] and mustget = []), for every '
-                  'history without thread-sender items whose calls name existing fibres (decidable scope ItemOk) that is not cut for lack of fuel. (_quiet variants state the same under the explicit hypothesis '
+                  'history without thread-sender items whose calls - including the calls of the scripted bodies attached to its main-context items - name existing fibres (decidable scope ItemOk) that is not cut for lack of fuel; '
+                  'the interrupt script of an item fires at the gaps of the nested calls exactly as at the gaps of the enclosing pass before and after them (the atomic operations of an item are numbered through), so '
+                  'the refinement theorems cover e.g. "wake-up for the running fibre from an interrupt, then the running fibre calls fibre_run on another fibre, then returns WAITING" (non-vacuity example bodyDemo). (_quiet variants state the same under the explicit hypothesis '
                   '"no sender inside a call at that instant" for arbitrary interleavings.) '
                   'Observation O3 (real behaviour, outside the property\'s interrupt semantics): a free-running sender stalled between its claim and its send hides later completed requests from the scheduler\'s '
                   'final check, so fibre_scheduler_next may return a late wake-up although a request completed; the monitor\'s `disturbed` flag suspends its oversleep/starvation rules while a thread sender is in flight. '
                   'The executable runner (interrupt scripts at numbered gaps, nesting, thread senders, quiescent run) is proved to pass only through reachable states, and without thread senders only through '
                   'states in which no sender is inside a call.',
-    'level_note': 'dispatch_within_runq_passes is PROVED: a fibre at position i of the run queue is dispatched by one of the next i+1 uninterrupted passes (from every reachable state, hypothesis: runner not cut for fuel), '
+    'level_note': 'dispatch_within_runq_passes is PROVED: a fibre at position i of the run queue is dispatched by one of the next i+1 uninterrupted passes (from every reachable state; hypotheses: the fibres dispatched meanwhile make no '
+                  'fibre_run/fibre_kill calls of their own (bscript = [] - a body\'s fibre_kill(f) would of course remove f), runner not cut for fuel), '
                   'pass_dispatches_the_head, joins_at_the_tail; the monitor\'s `starved` verdict (a request outstanding at the beginning of nf complete undisturbed passes) additionally checks the bound on the real code. '
                   'NOT proved, only checked on every run by the correspondence (sampling + small exhaustive scopes, never called proof): implementation = model on the compared outputs; '
                   'model_refines_monitor / model_settles PROVE that the abstract monitor never complains about the MODEL (verdict ok: no event out of order, no oversleeping pass, no starved request; after a quiescent run '
@@ -40,8 +44,8 @@ META = {
                   'Events are FIFO in CLAIM order (C04); that is the order of the sends whenever claim..send sections do not overlap. '
                   'Trusted: Lean kernel (standard axioms, no bv_decide); the hand model, validated on every run against the real code: identical output (dispatch order, fibre_self, returned wake-up, every boolean, '
                   'processed stamps, number of atomic operations of every call - so model and code agree on the numbering of gaps) on all histories generated, and the Lean monitor on the real code\'s output. '
-                  'Generated: exhaustively every placement of 1 interrupt call (+1 nested call at every gap of it; pairs on 3 of 7 base scenarios in the quick tier, pairs everywhere and triples on 2 in the thorough tier) '
-                  'at every gap <k>a/<k>b of every main-context call of 7 base scenarios (handler+events, atomic queue holding 7 and 8 entries, lone yielder, sleeper, killed handler, event queue of depth 1), plus seeded random '
+                  'Generated: exhaustively every placement of 1 interrupt call (+1 nested call at every gap of it; pairs on 4 of 8 base scenarios in the quick tier, pairs everywhere and triples on 2 in the thorough tier) '
+                  'at every gap <k>a/<k>b of every main-context call of 8 base scenarios (a scripted fibre calling fibre_run during its dispatch after a yield, handler+events, atomic queue holding 7 and 8 entries, lone yielder, sleeper, killed handler, event queue of depth 1), plus seeded random '
                   'histories (up to 3 calls per main-context call, depth-2 nesting, queue filled to 6-9 entries, thread items). Free-running threads appear only in the restricted form "the main context executes whole calls '
                   'at a gap of a sender" (enough to expose fibre_eventq_send posting the wake-up before the event, and fibre_run_atomic sending before storing - neither is observable when handlers run to completion); '
                   'true concurrent executions are C04\'s and C07\'s harnesses and are not repeated here. fibre_kill is observed at its return (a request accepted between its last receive and its return is treated as withdrawn). '
@@ -86,7 +90,8 @@ def render(it):
     if t == 'quiesce':
         return 'quiesce'
     if t == 'main':
-        return ' '.join([it['call'][0], str(it['call'][1])] + script_tokens(it['script']))
+        body = [f'b:{c[0]}{c[1]}' for c in it.get('body', [])] + ([f'b={it["bret"]}'] if it.get('bret', 'w') != 'w' else [])
+        return ' '.join([it['call'][0], str(it['call'][1])] + body + script_tokens(it['script']))
     if t == 'isr':
         toks = [f'{it["call"][0]}{it["call"][1]}']
         ncur = None
@@ -239,6 +244,11 @@ def removals(h):
         def put(new):
             return dict(h, items=items[:i] + [new] + items[i + 1:])
         if it['t'] == 'main':
+            bd = it.get('body', [])
+            for j in range(len(bd)):
+                yield put(dict(it, body=bd[:j] + bd[j + 1:]))
+            if it.get('bret', 'w') != 'w':
+                yield put(dict(it, bret='w'))
             sc = it['script']
             for j in range(len(sc)):
                 yield put(dict(it, script=sc[:j] + sc[j + 1:]))
@@ -260,7 +270,7 @@ def removals(h):
     w = h['cfg'].split()
     if len(w) > 2:
         last = len(w) - 2
-        if not re.search(rf'\b(run|kill) {last}\b|[Aa]{last}\b|(run|kill):{last}\b', ' '.join(render(it) for it in items)):
+        if not re.search(rf'\b(run|kill) {last}\b|[Aa]{last}\b|(run|kill):{last}\b|b:[rk]{last}\b', ' '.join(render(it) for it in items)):
             yield dict(h, cfg=' '.join(w[:-1]))
 
 
@@ -399,7 +409,7 @@ def rand_cfg(rng, nextra=None):
     kinds = []
     for _ in range(nextra):
         r = rng.below(8)
-        kinds.append('w' if r < 3 else f'y{rng.range(0, 4)}' if r < 6 else f's{rng.range(1, 12)}')
+        kinds.append('w' if r < 2 else 'c' if r < 4 else f'y{rng.range(0, 4)}' if r < 6 else f's{rng.range(1, 12)}')
     return f'cfg {rng.choice([1, 2, 2, 4, 4, 8])} ' + ' '.join(kinds), nextra + 1
 
 
@@ -420,7 +430,11 @@ def gen_random(rng, big=False):
         maxgap = rng.choice([3, 5, 8, 12, 20])
         if r < 50:
             T += rng.choice([0, 0, 1, 2, 5, 13])
-            items.append({'t': 'main', 'call': ('next', T), 'script': rand_script(rng, st, nf, maxgap)})
+            it = {'t': 'main', 'call': ('next', T), 'script': rand_script(rng, st, nf, maxgap)}
+            if rng.chance(1, 2):       # what a scripted fibre does if this pass dispatches one
+                it['body'] = [(rng.choice('rrk'), rng.below(nf)) for _ in range(rng.range(0, 3))]
+                it['bret'] = rng.choice('wwwye')
+            items.append(it)
         elif r < 62:
             items.append({'t': 'main', 'call': ('run', rng.below(nf)), 'script': rand_script(rng, st, nf, maxgap)})
         elif r < 68:
@@ -502,6 +516,8 @@ def base_scenarios():
         ('lone-yielder', {'cfg': 'cfg 4 y6', 'items': [m('run', 1), m('next', 10), m('next', 11), m('next', 12), m('next', 13), m('next', 14), q]}, [('A', 0), ('A', 1), ('E', None)]),
         ('sleeper', {'cfg': 'cfg 4 s5 y1', 'items': [m('run', 1), m('run', 2), m('next', 10), m('next', 12), m('next', 16), q]}, [('A', 1), ('A', 2), ('E', None)]),
         ('kill-handler', {'cfg': 'cfg 2 w', 'items': [isr('E', 901), m('kill', 0), isr('E', 902), m('next', 5), m('kill', 1), q]}, [('A', 0), ('A', 1), ('E', None)]),
+        ('body-calls', {'cfg': 'cfg 2 c y2 w', 'items': [m('run', 2), m('run', 1), m('next', 10),
+                                                          dict(m('next', 11), body=[('r', 3)], bret='w'), m('next', 12), q]}, [('A', 1), ('A', 0), ('E', None)]),
         ('event-queue-depth-1', {'cfg': 'cfg 1 w', 'items': [isr('E', 901), m('next', 5), isr('E', 902), m('run', 0), m('next', 6), q]}, [('A', 0), ('E', None)]),
     ]
 
@@ -587,7 +603,7 @@ def run(ctx):
     exh = {}
     for (name, base, calls) in base_scenarios():
         if quick:
-            nmax = 2 if name in ('handler', 'event-queue-depth-1', 'kill-handler') else 1
+            nmax = 2 if name in ('handler', 'event-queue-depth-1', 'kill-handler', 'body-calls') else 1
         else:
             nmax = 3 if name in ('handler', 'event-queue-depth-1') else 2
         ps = placements(ctx, base, calls, nmax, nested=True)
@@ -645,7 +661,7 @@ def run(ctx):
     ctx.cov['rule'] = ('history = cfg (event queue depth, fibres: handler + yielders/sleepers/waiters) + main-context calls (next/run/kill) each with an interrupt script: up to 3 interrupt-context calls '
                        '(fibre_run_atomic / claim+stamp+fibre_eventq_send) at gaps <k>a|<k>b = before|after atomic operation k of the call, each with nested calls at ITS gaps (depth 2), plus interrupts between calls, '
                        'thread senders with whole main-context calls at their gaps, and a final quiescent run; exhaustive groups: every placement of 1 call (and 1 call + 1 nested call at every gap of it; '
-                       'pairs/triples as listed in exhaustive_placements) over 7 base scenarios incl. the atomic queue holding 7 and 8 entries; random groups from VERIF_SEED; '
+                       'pairs/triples as listed in exhaustive_placements) over 8 base scenarios incl. the atomic queue holding 7 and 8 entries; random groups from VERIF_SEED; '
                        'compared per history: full output of the real code vs the Lean model, and the Lean monitor Spec/IsrSpec.lean on the real code\'s output; '
                        'distinct = distinct op list; non-trivial = at least one call placed at a gap of another call')
     ctx.assumptions.append(META['level_note'])
@@ -681,7 +697,8 @@ def fix_item(it):
         return {'gap': gap(e['gap']), 'call': call(e['call']), 'nested': [(gap(g), call(c)) for (g, c) in e.get('nested', [])]}
     t = it['t']
     if t == 'main':
-        return {'t': 'main', 'call': call(it['call']), 'script': [entry(e) for e in it['script']]}
+        return {'t': 'main', 'call': call(it['call']), 'script': [entry(e) for e in it['script']],
+                'body': [call(c) for c in it.get('body', [])], 'bret': it.get('bret', 'w')}
     if t == 'isr':
         return {'t': 'isr', 'call': call(it['call']), 'nested': [(gap(g), call(c)) for (g, c) in it.get('nested', [])]}
     if t == 'thread':
